@@ -110,6 +110,18 @@ pub fn run(out: &mut Out, seed: u64, tier: &str) {
     let mut rng = Rng::new(seed ^ 0x0606);
     let mut stats = (0usize, 0usize);
     for m in library() { check(out, &m, &mut stats); }
+    // the corpus of optimisation starts that once exposed a fault (several step halvings in one run, stiff contacts): they are
+    // ordinary inputs of this property too
+    let corpus_dir = concat!(env!("CARGO_MANIFEST_DIR"), "/../corpus/opt");
+    if let Ok(rd) = std::fs::read_dir(corpus_dir) {
+        let mut files: Vec<_> = rd.filter_map(|e| e.ok()).map(|e| e.path()).filter(|p| p.extension().map(|x| x == "xyz").unwrap_or(false)).collect();
+        files.sort();
+        for f in files {
+            if let Some((syms, xs)) = std::fs::read(&f).ok().and_then(|b| crate::s_cli::parse_xyz(&b)) {
+                check(out, &Mol { name: format!("corpus:{}", f.file_name().unwrap().to_string_lossy()), zs: syms.iter().map(|s| z_of(s)).collect(), xs }, &mut stats);
+            }
+        }
+    }
     let ligands = [1usize, 6, 8, 17];
     for z in 1..=118usize {
         check(out, &Mol { name: format!("atom{}", z), zs: vec![z], xs: vec![[0.0, 0.0, 0.0]] }, &mut stats);
